@@ -114,7 +114,12 @@ def specStep (s : SpecSt) (l : String) : SpecSt × String :=
     | ["resp", p, i, ok, tag] =>
       let (p, i) := (p.toNat!, i.toNat!)
       match s.live.find? (fun r => r.hop == p && r.id == i) with
-      | none => (s, if items.isEmpty then "ok" else "fail " ++ ftag s "phantom")
+      | none =>
+        -- no request with this id went to that hop.  If a request with this id is live on another
+        -- hop the response is unsolicited (forged or misrouted upstream) and is not judged here; if no
+        -- request with this id is live at all, the agent must not act on it.
+        if s.live.any (fun r => r.id == i) then (s, "ok")
+        else (s, if items.isEmpty then "ok" else "fail " ++ ftag s "phantom")
       | some r =>
         let s' := { s with live := s.live.erase r }
         let want : List String :=
